@@ -1,4 +1,5 @@
 import TensorModel.Proofs.Transpose
+import TensorModel.Proofs.Roll
 /-!
   C03 — transposition is a pure permutation of axes.
   Property theorems only; helper lemmas live in `TensorModel/Proofs/Transpose.lean`.
@@ -62,7 +63,36 @@ theorem T_pure (st st' : St) (t t' : Dense) (axes : List Int) (hold : t.old = no
     (h : Dense.T st t axes = .ok (st', t')) : st' = st ∧ t'.win = t.win := by
   exact denseT_pure st st' t t' axes hold h
 
+/-! ### Axis rolling (`RollAxis(axis, start, safe)`): a transposition by the axes vector `rollAxes` builds -/
+
+/-- `RollAxis` refuses exactly the axes outside `[0, dims)` and the targets outside `[0, dims]`. -/
+theorem roll_refuses_iff (dims : Nat) (axis start : Int) :
+    (∃ r, Dense.rollAxes dims axis start = .ok r) ↔ (0 ≤ axis ∧ axis < dims) ∧ (0 ≤ start ∧ start ≤ dims) :=
+  rollAxes_ok_iff dims axis start
+
+/-- the tensor itself is returned exactly when the axis already sits at its target position -/
+theorem roll_noop (dims : Nat) (axis start : Int) (h : Dense.rollAxes dims axis start = .ok none) :
+    axis = rollPos axis start := rollAxes_none h
+
+/-- otherwise the axes vector is a permutation of `0..dims-1` (so every theorem above about transposition by a
+    valid permutation applies to the rolled tensor), … -/
+theorem roll_axes_valid (dims : Nat) (axis start : Int) (a : List Int)
+    (h : Dense.rollAxes dims axis start = .ok (some a)) : ValidPerm a dims := rollAxes_isPerm h
+
+/-- … the rolled axis ends up at position `start` (one less when it came from before `start`), … -/
+theorem roll_axis_position (dims : Nat) (axis start : Int) (a : List Int)
+    (h : Dense.rollAxes dims axis start = .ok (some a)) :
+    a[(rollPos axis start).toNat]? = some axis := rollAxes_pos h
+
+/-- … and all other axes keep their relative order. -/
+theorem roll_others_keep_order (dims : Nat) (axis start : Int) (a : List Int)
+    (h : Dense.rollAxes dims axis start = .ok (some a)) :
+    a.filter (· != axis) = (rangeI dims).filter (· != axis) := rollAxes_others h
+
 -- concrete instances (non-vacuity)
+example : (match Dense.rollAxes 4 3 1 with | .ok (some [0, 3, 1, 2]) => true | _ => false) = true := by decide
+example : (match Dense.rollAxes 4 1 4 with | .ok (some [0, 2, 3, 1]) => true | _ => false) = true := by decide
+example : (match Dense.rollAxes 3 1 2 with | .ok none => true | _ => false) = true := by decide
 example : ValidPerm [2, 0, 1] 3 := by unfold ValidPerm; decide
 example : (match unsafePermute [2, 0, 1] ([10, 20, 30] : List Int) with | .ok (.ok [30, 10, 20]) => true | _ => false) = true := by decide
 
